@@ -273,8 +273,8 @@ func main() {
 				sets[k][m] = true
 			}
 		}
-		if i == 0 || len(merged.Info) == 0 {
-			for k, v := range r.Info {
+		for k, v := range r.Info {
+			if _, ok := merged.Info[k]; !ok {
 				merged.Info[k] = v
 			}
 		}
